@@ -209,17 +209,18 @@ class Run:
             if dom is not None:
                 self.v("not_pareto_minimal", i, model=mi, returned=gm, dominated_by=dom, fixed_minus=fm)
 
-    def run(self):
+    def run(self, phase="run", faults=()):
         from inference.c_revision_model import CRevisionModel
 
         S = self.S
-        S.begin_phase("run", [])
+        S.begin_phase(phase, faults)
         S.begin_op(-1)
         for p in self.doc["priors"]:
             self.priors.append(self.make_prior(p))
         for i, op in enumerate(self.doc["ops"]):
             S.begin_op(i)
             k = op["op"]
+            fired0 = S.fired.get("interrupt", 0)
             try:
                 if k == "new_model":
                     conds = {int(idx): (self._cond(t, idx), t) for idx, t in op["conds"]}
@@ -251,7 +252,12 @@ class Run:
             except seams.HarnessError:
                 raise
             except Exception as e:  # noqa: BLE001
-                self.v("exception:" + type(e).__name__, i, opkind=k, msg=str(e)[:300], tb=traceback.format_exc()[-900:])
+                if S.fired.get("interrupt", 0) > fired0 and k in ("crev", "compile_check", "rank_prior"):
+                    # an injected interruption of a solver call may surface as an exception of a read-only
+                    # operation; what follows must be unaffected
+                    S.probe("interrupted_ops")
+                else:
+                    self.v("exception:" + type(e).__name__, i, opkind=k, msg=str(e)[:300], tb=traceback.format_exc()[-900:])
             S.trace("step", i, k, len(self.viol))
         # final: every model equals a fresh compilation of its current conditionals
         i = len(self.doc["ops"])
@@ -283,8 +289,28 @@ def run_scenario(doc, full_trace=False):
     S.active = True
     if full_trace:
         S.full_trace = []
+    faults = doc.get("faults")
+    if faults is None:
+        faults = []
+        n = int((doc.get("fault_plan") or {}).get("n", 0))
+        if n:
+            tw = Run(doc, S)
+            tw.run("twin", [])
+            rng = stream(doc["seed"], "faults")
+            cand = [(o, c) for (o, w, site), c in sorted(S.counts.items()) if site == "z3.check" and 0 <= o < len(doc["ops"]) and c > 0 and doc["ops"][o]["op"] in ("crev", "compile_check", "rank_prior")]
+            seen = set()
+            for _ in range(n):
+                if not cand:
+                    break
+                o, c = rng.choice(cand)
+                k = rng.randrange(c)
+                if (o, k) not in seen:
+                    seen.add((o, k))
+                    faults.append({"op": o, "site": "z3.check", "k": k, "kind": "interrupt"})
+        doc = dict(doc, faults=faults)
+        S.fired = {}
     run = Run(doc, S)
-    run.run()
+    run.run("run", faults)
     n_mut = sum(1 for op in doc["ops"] if op["op"] in ("add", "remove"))
     res = {
         "violations": run.viol,
@@ -359,7 +385,7 @@ def generate(prop, verif_seed, idx, tier="quick", cls=None):
     sig = W.ATOMS[:n_atoms]
     nw = 2**n_atoms
     if cls is None:
-        cls = g.choices(["incremental", "revision", "mixed", "two_priors", "rebind"], weights=[26, 26, 21, 13, 14])[0]
+        cls = g.choices(["incremental", "revision", "mixed", "two_priors", "rebind", "interrupt"], weights=[23, 23, 19, 12, 13, 10])[0]
     priors = []
     psigs = []
     for pn in range(2 if cls == "two_priors" else 1):
@@ -433,7 +459,7 @@ def generate(prop, verif_seed, idx, tier="quick", cls=None):
     for _ in range(n_ops):
         m = g.randrange(n_models)
         r = g.random()
-        w_inc = {"incremental": 0.7, "revision": 0.25, "mixed": 0.5, "two_priors": 0.5, "rebind": 0.5}[cls]
+        w_inc = {"incremental": 0.7, "revision": 0.25, "mixed": 0.5, "two_priors": 0.5, "rebind": 0.5, "interrupt": 0.4}[cls]
         if r < w_inc:
             if live[m] and g.random() < 0.4:
                 idx = g.choice(sorted(live[m])) if g.random() < 0.9 else g.randint(1, 8)
@@ -481,11 +507,15 @@ def generate(prop, verif_seed, idx, tier="quick", cls=None):
                 op["fixed_plus"] = {str(k): g.choice([0, 0, 1, 2]) for k in keys}
             ops.append(op)
             last_crev[m] = op
-    return {"property": prop, "seed": sseed, "idx": scen_idx, "class": cls, "knobs": {}, "sig": sig, "priors": priors, "ops": ops, "faults": []}
+    doc = {"property": prop, "seed": sseed, "idx": scen_idx, "class": cls, "knobs": {}, "sig": sig, "priors": priors, "ops": ops, "faults": []}
+    if cls == "interrupt":
+        del doc["faults"]
+        doc["fault_plan"] = {"n": g.choice([1, 2, 3])}
+    return doc
 
 
 def canonical(doc):
-    d = {k: doc.get(k) for k in ("property", "sig", "priors", "ops")}
+    d = {k: doc.get(k) for k in ("property", "sig", "priors", "ops", "faults")}
     return hashlib.sha256(json.dumps(d, sort_keys=True).encode()).hexdigest()
 
 
@@ -503,7 +533,7 @@ SPECS = {
             "infeasible, and with gamma+ = 0 no feasible vector dominates the returned gamma-. Distinct = distinct canonical JSON; non-trivial = a model exists and at least one add/remove or c_revision ran."
         ),
         "state_measure": "distinct (multiset of current conditional texts, number of conditionals) per model after each step",
-        "must_reach": ["crev_calls", "crev_none", "pareto_checks", "add_remove_steps", "csp_equivalence_checks"],
+        "must_reach": ["crev_calls", "crev_none", "pareto_checks", "add_remove_steps", "csp_equivalence_checks", "interrupt"],
         "reach_in_quick": True,
         "components": {
             "real": ["inference/c_revision.py, c_revision_model.py, c_inference.py (minima encoding), preocf.py, parser/* (current working tree of /repo)", "z3 Optimize (Pareto), pysmt: called for real"],
@@ -553,6 +583,7 @@ def features(doc, v):
         elif op["op"] == "add":
             texts.append(op["cond"])
     f["n_conditionals"] = len(texts)
+    f["fault_kinds"] = sorted({x["kind"] for x in doc.get("faults") or []})
     f["has_unfalsifiable_shape"] = any(_unfalsifiable_shape(t) for t in texts)
     return f
 
@@ -566,6 +597,17 @@ def _unfalsifiable_shape(t):
 
 
 def shrink_candidates(doc):
+    doc = {k: v for k, v in doc.items() if k != "fault_plan"}
+    doc.setdefault("faults", [])
+    if doc["faults"]:
+        for i in range(len(doc["faults"])):
+            yield dict(doc, faults=doc["faults"][:i] + doc["faults"][i + 1 :])
+        # operations carry the fault addresses: with faults present only fault-free suffix operations are dropped
+        last = max(f["op"] for f in doc["faults"])
+        for i in range(len(doc["ops"]) - 1, last, -1):
+            if doc["ops"][i]["op"] != "new_model":
+                yield dict(doc, ops=doc["ops"][:i] + doc["ops"][i + 1 :])
+        return
     ops = doc["ops"]
     # drop operations (keeping model numbering consistent: new_model ops are only dropped when unused)
     used = {op.get("model") for op in ops if "model" in op}
